@@ -128,6 +128,9 @@ func runCase(dir string, n int, line string) (res string) {
 		cancel()
 	case instant == "before":
 		ctx, cancel = context.WithDeadline(context.Background(), time.Now().Add(-time.Second))
+	case instant == "after" && kind == "deadline":
+		// completes long before its deadline; the deadline must not outlive the operation
+		ctx, cancel = context.WithTimeout(context.Background(), 120*time.Millisecond)
 	case instant == "after":
 		ctx, cancel = context.WithCancel(context.Background())
 	case kind == "cancel":
@@ -200,11 +203,20 @@ func runCase(dir string, n int, line string) (res string) {
 	if leak < 0 {
 		leak = 0
 	}
-	// follow-up with a live context: every byte the peer sends from now on must be delivered
+	// follow-up with a live context that carries no deadline of its own (a watchdog cancels it after 3 s):
+	// every byte the peer sends from now on must be delivered, also once the first operation's deadline has passed
+	live := func() (context.Context, context.CancelFunc) {
+		c, cf := context.WithCancel(context.Background())
+		t := time.AfterFunc(3*time.Second, cf)
+		return c, func() { t.Stop(); cf() }
+	}
+	if instant == "after" && kind == "deadline" {
+		time.Sleep(150 * time.Millisecond)
+	}
 	follow := "ok"
 	if op == "write" {
 		go io.Copy(io.Discard, peer)
-		lctx, lcancel := context.WithTimeout(context.Background(), 3*time.Second)
+		lctx, lcancel := live()
 		if _, err := rw.Write(lctx, []byte("PING\x00")); err != nil {
 			follow = "bad:write:" + classify(err)
 		}
@@ -217,7 +229,7 @@ func runCase(dir string, n int, line string) (res string) {
 			lcancel()
 		}
 		go peer.Write([]byte("XYZ\x00"))
-		lctx, lcancel := context.WithTimeout(context.Background(), 3*time.Second)
+		lctx, lcancel := live()
 		fr, err := rw.ReadBytes(lctx, 0)
 		lcancel()
 		if err != nil {
